@@ -132,6 +132,10 @@ def case_st(draw, only=None):
     views = []
     for d in operand_descs(call):
         views.append("T" if len(d["shape"]) >= 2 and draw(st.integers(0, 3)) == 0 else "")
+    if fn == "reshape" and len(call["args"][0]["$p"]["shape"]) >= 2 and draw(st.integers(0, 2)) == 0:
+        # order="A" follows the memory layout of the operand: Fortran order for the transposed view
+        call["kw"]["order"] = "A"
+        views = ["T" if draw(st.integers(0, 2)) else ""] + views[1:]
     call["views"] = views
     # numpy.full/zeros/ones dispatch only through like=, never on fill_value/shape
     call["spelling"] = "numpoly" if fn in ("full", "zeros", "ones") else draw(
@@ -144,7 +148,7 @@ def strategy(tier):
 
 
 def STRATA(tier):
-    return SHAPE_FUNCS + ["getitem", "getitem-2", "getitem-3", "iter", "ravel", "flatten", "T"]
+    return SHAPE_FUNCS + ["getitem", "getitem-2", "getitem-3", "iter", "ravel", "flatten", "T", "reshape-2", "reshape-3"]
 
 
 def strategy_for(tier, name):
@@ -206,6 +210,10 @@ def check_case(case, ctx):
         return fails
 
     cls = "strided-input" if "T" in views else ""
+    if mkw.get("order") == "A":
+        # what "A" means is decided by the live operand's layout (the model array is always C-ordered)
+        mkw["order"] = "F" if (args[0].flags.f_contiguous and not args[0].flags.c_contiguous) else "C"
+        ctx.label("reshape:order=A->" + mkw["order"])
     # ---- expected from numpy on the object array
     try:
         if fn in RECIPES:
